@@ -48,6 +48,7 @@
 #include "upipe/uprobe.h"
 #include "upipe/upump.h"
 #include "upipe/upipe.h"
+#include "upipe/umutex.h"
 #include "upipe/uprobe_upump_mgr.h"
 #include "upipe-pthread/uprobe_pthread_upump_mgr.h"
 #include "upipe-modules/upipe_transfer.h"
@@ -71,7 +72,11 @@ static const char *g_pname = "pthread";
 
 /* operation kinds; an operation is (thread, kind) */
 enum { K_SET_A, K_SET_B, K_SET_NULL, K_FREEZE, K_THAW, K_NEED, K_PIPE, K_WORK, K_LOOP, K_QUIT,
-       /* epilogue only */ K_ATTACH_RELEASE, K_LOOP_APP };
+       /* epilogue only */ K_ATTACH_RELEASE, K_LOOP_APP,
+       /* --binfreeze 1: the application freezes the worker bin itself (takes the xfer manager's mutex), has a control command
+        * forwarded to the deported pipe, thaws */
+       K_BIN_FREEZE, K_BIN_CTRL, K_BIN_THAW };
+static bool g_binfreeze;
 struct opdef {
     int t, k;
 };
@@ -117,6 +122,11 @@ struct st {
     int nrp;
     struct upipe *work[MAXW];
     int nwork, loops;
+    /* --binfreeze: the mutex protecting the worker thread's loop (counting, never blocks: the two threads alternate strictly) */
+    struct umutex mutex;
+    struct urefcount mutex_ref;
+    int mx_depth, mx_holder;
+    bool m_bin_frozen; /* reference model: the application holds the bin frozen */
     /* first error raised by the recording probe / the pipes */
     char esig[128], emsg[600];
     int hist[40], nhist;
@@ -242,8 +252,9 @@ static void rp_entered(struct rpipe *rp, const char *what)
 {
     if (rp->dead)
         st_fail(rp->st, "deported-pipe-used-after-free", "%s on a deported pipe after its last release", what);
-    if (rp->deported && self() != 1)
-        st_fail(rp->st, "deported-pipe-entered-from-application-thread", "%s on a deported pipe in thread %d", what, self());
+    if (rp->deported && self() != 1 && !(g_binfreeze && rp->st->mx_depth > 0 && rp->st->mx_holder == self()))
+        st_fail(rp->st, "deported-pipe-entered-from-application-thread", "%s on a deported pipe in thread %d%s", what, self(),
+                g_binfreeze ? " without the lock on the worker's event loop" : "");
 }
 
 static void rp_need(struct rpipe *rp)
@@ -283,6 +294,9 @@ static int rp_control(struct upipe *upipe, int command, va_list args)
     case UPIPE_REGISTER_REQUEST:
     case UPIPE_UNREGISTER_REQUEST:
         rp_entered(rp, "control");
+        return UBASE_ERR_NONE;
+    case UPIPE_SET_OPTION:
+        rp_entered(rp, "set_option");
         return UBASE_ERR_NONE;
     default: return UBASE_ERR_UNHANDLED;
     }
@@ -333,6 +347,29 @@ static bool loop_run(struct st *st, struct upump_mgr *mgr)
     return ran;
 }
 
+static int mx_lock(struct umutex *m)
+{
+    struct st *st = container_of(m, struct st, mutex);
+    if (st->mx_depth > 0 && st->mx_holder != self()) {
+        st_fail(st, "harness:mutex-would-block", "thread %d asks for the lock held by thread %d", self(), st->mx_holder);
+        return UBASE_ERR_BUSY;
+    }
+    st->mx_depth++;
+    st->mx_holder = self();
+    return UBASE_ERR_NONE;
+}
+static int mx_unlock(struct umutex *m)
+{
+    struct st *st = container_of(m, struct st, mutex);
+    if (st->mx_depth == 0 || st->mx_holder != self()) {
+        st_fail(st, "bin-freeze:unlock-of-a-lock-not-held", "thread %d unlocks the worker loop's mutex, depth %d holder %d", self(), st->mx_depth, st->mx_holder);
+        return UBASE_ERR_INVALID;
+    }
+    st->mx_depth--;
+    return UBASE_ERR_NONE;
+}
+static void mx_noref(struct urefcount *r) { (void)r; }
+
 /* ---- executing one operation in the calling thread ---- */
 static void exec_here(struct st *st, int k)
 {
@@ -379,9 +416,30 @@ static void exec_here(struct st *st, int k)
         break;
     }
     case K_LOOP:
+        if (g_binfreeze)
+            mx_lock(&st->mutex); /* the worker thread's loop runs under its mutex */
         loop_run(st, st->mgr[1]);
+        if (g_binfreeze)
+            mx_unlock(&st->mutex);
         st->loops++;
         break;
+    case K_BIN_FREEZE:
+    case K_BIN_THAW:
+    case K_BIN_CTRL: {
+        struct upipe *w = st->work[st->nwork - 1];
+        int r = k == K_BIN_FREEZE ? upipe_bin_freeze(w) : k == K_BIN_THAW ? upipe_bin_thaw(w) : upipe_set_option(w, "x", "y");
+        if (k != K_BIN_CTRL && r != UBASE_ERR_NONE)
+            st_fail(st, "bin-freeze:error", "%s returned %d", k == K_BIN_FREEZE ? "upipe_bin_freeze" : "upipe_bin_thaw", r);
+        if (k == K_BIN_FREEZE)
+            st->m_bin_frozen = true;
+        if (k == K_BIN_THAW)
+            st->m_bin_frozen = false;
+        /* the lock is held exactly while the application keeps the bin frozen, whatever was forwarded meanwhile */
+        if (st->mx_depth != (st->m_bin_frozen ? 1 : 0))
+            st_fail(st, "bin-freeze:lock-state", "after %s the worker loop's mutex is held %d time(s), the application %s the bin frozen",
+                    k == K_BIN_FREEZE ? "bin_freeze" : k == K_BIN_THAW ? "bin_thaw" : "a forwarded set_option", st->mx_depth, st->m_bin_frozen ? "keeps" : "does not keep");
+        break;
+    }
     case K_LOOP_APP: loop_run(st, st->mgr[0]); break;
     case K_ATTACH_RELEASE:
         for (int i = 0; i < st->nwork; i++) {
@@ -449,7 +507,13 @@ static void *fz_init(void)
         st->thr_alive = true;
     }
     if (g_worker) {
-        struct upipe_mgr *xfer_mgr = upipe_xfer_mgr_alloc(32, 0, NULL);
+        if (g_binfreeze) {
+            urefcount_init(&st->mutex_ref, mx_noref);
+            st->mutex.refcount = &st->mutex_ref;
+            st->mutex.umutex_lock = mx_lock;
+            st->mutex.umutex_unlock = mx_unlock;
+        }
+        struct upipe_mgr *xfer_mgr = upipe_xfer_mgr_alloc(32, 0, g_binfreeze ? &st->mutex : NULL);
         if (xfer_mgr == NULL || !ubase_check(upipe_xfer_mgr_attach(xfer_mgr, st->mgr[1])))
             abort();
         st->wsink_mgr = upipe_wsink_mgr_alloc(xfer_mgr);
@@ -467,7 +531,13 @@ static bool fz_enabled(void *s, int op)
     switch (g_ops[op].k) {
     case K_THAW: return !g_nest || st->m_depth[t] > 0; /* thaws are balanced (the counter is unsigned) */
     case K_PIPE: return st->nrp < MAXP;
+    case K_BIN_FREEZE: return st->nwork > 0 && !st->m_bin_frozen;
+    case K_BIN_THAW: return st->nwork > 0 && st->m_bin_frozen;
+    case K_BIN_CTRL: return st->nwork > 0;
+    case K_LOOP: return !st->m_bin_frozen; /* the worker thread would wait for the lock */
     case K_WORK:
+        if (st->m_bin_frozen)
+            return false;
         /* an application deports a pipe it has built for the worker: one that holds no event loop */
         return st->nwork < MAXW && st->nrp > 0 && !st->rp[st->nrp - 1]->wrapped && st->rp[st->nrp - 1]->upump_mgr == NULL;
     default: return true;
@@ -532,12 +602,14 @@ static void fz_canon(void *s, struct vbuf *out)
     for (int i = 0; i < st->nrp; i++)
         vbuf_putf(out, "P%d:%d%d%d:%d|", mgr_id(st, st->rp[i]->dead ? NULL : st->rp[i]->upump_mgr), st->rp[i]->wrapped, st->rp[i]->deported,
                   st->rp[i]->dead, st->rp[i]->in_alloc);
-    vbuf_putf(out, "w%d", st->nwork);
+    vbuf_putf(out, "w%d:z%d%d", st->nwork, st->m_bin_frozen, st->mx_depth);
 }
 
 static void fz_teardown(struct st *st, bool check)
 {
     if (g_worker) {
+        if (st->m_bin_frozen)
+            exec_on(st, 0, K_BIN_THAW);
         /* epilogue: leave the frozen sections, give each thread its loop, attach and release the workers */
         for (int t = 0; t < 2; t++) {
             while (st->m_depth[t] > 0)
@@ -621,7 +693,8 @@ static bool fz_nontrivial(void *s)
 
 static void fz_opstr(int op, char *b, size_t n)
 {
-    static const char *kn[] = {"set(A)", "set(B)", "set(NULL)", "freeze", "thaw", "need_upump_mgr", "alloc_pipe_for_worker", "wsink_alloc", "run_loop"};
+    static const char *kn[] = {"set(A)", "set(B)", "set(NULL)", "freeze", "thaw", "need_upump_mgr", "alloc_pipe_for_worker", "wsink_alloc", "run_loop",
+                               "quit", "attach_release", "loop_app", "bin_freeze", "forwarded_set_option", "bin_thaw"};
     if (op < 0 || op >= g_nops) {
         snprintf(b, n, "op%d?", op);
         return;
@@ -649,6 +722,8 @@ int main(int argc, char **argv)
             g_worker = atoi(argv[i + 1]) != 0;
         else if (!strcmp(argv[i], "--model"))
             g_nest = strcmp(argv[i + 1], "flat") != 0;
+        else if (!strcmp(argv[i], "--binfreeze"))
+            g_binfreeze = atoi(argv[i + 1]) != 0;
     }
     for (int i = 1; i < argc; i++) {
         if (!strcmp(argv[i], "--history-states"))
@@ -684,6 +759,11 @@ int main(int argc, char **argv)
         add_op(1, K_THAW);
         add_op(1, K_NEED);
         add_op(1, K_LOOP);
+        if (g_binfreeze) {
+            add_op(0, K_BIN_FREEZE);
+            add_op(0, K_BIN_CTRL);
+            add_op(0, K_BIN_THAW);
+        }
     }
     static char name[64];
     snprintf(name, sizeof(name), "c06_freeze:%s%s:%s", g_pname, g_worker ? "+worker" : "", g_nest ? "nest" : "flat");
